@@ -111,6 +111,17 @@ def penrose(A, X):
             "AX-herm": ref.fro(AX - ref.conjT(AX)), "XA-herm": ref.fro(XA - ref.conjT(XA))}
 
 
+def _digest(x):
+    """Value digest of a returned (X, histories, ...) tuple."""
+    if isinstance(x, dict):
+        return tuple((str(k), _digest(v)) for k, v in sorted(x.items(), key=lambda kv: str(kv[0])))
+    if isinstance(x, (list, tuple)):
+        return tuple(_digest(v) for v in x)
+    if isinstance(x, np.ndarray):
+        return ("nd", x.shape, str(x.dtype), ahash(x))
+    return repr(x)
+
+
 def run_solver(out, order, A, gamma, max_iter, tol, compute_residuals=True, sparse=False, warmup=None):
     """warmup: None, or a matrix on which the SAME solver object is called first (its result is discarded): the
     measured call must not depend on it (every call starts from X0 = A^H/||A||_F^2)."""
@@ -125,12 +136,17 @@ def run_solver(out, order, A, gamma, max_iter, tol, compute_residuals=True, spar
                                                      compute_residuals=compute_residuals)
         site = "NewtonSchulz"
     if warmup is not None:
-        okw, _ = out.call(site + ".compute(warm-up call)", quiet, solver.compute, Q(warmup))
+        okw, kept = out.call(site + ".compute(warm-up call)", quiet, solver.compute, Q(warmup))
         if not okw:
             return site, None
+        kept_before = _digest(kept)
     arg = S(A) if sparse else Q(A)
     h0 = ahash(arg)
     ok, r = out.call(site + ".compute", quiet, solver.compute, arg)
+    if warmup is not None:
+        # what the caller kept from the earlier call (X and the histories that describe it) stays what it was
+        out.true(site + ":result of the earlier call on the same solver unchanged by the later call",
+                 _digest(kept) == kept_before, "X / histories returned by the warm-up call changed during the next call")
     if not ok:
         return site, None
     out.true(site + ":argument unchanged", ahash(arg) == h0, "input modified")
